@@ -5,23 +5,269 @@ Soundness of the distance certificate checker and of the negative-closed-walk ch
 namespace PetgraphModel.DistProofs
 open PetgraphModel PetgraphModel.MGraph PetgraphModel.Oracle
 
+/-! ### generic helpers -/
+
+theorem walk_trans {g : MGraph} {a b x : Nat} {c c' : Int}
+    (h1 : WalkCost g a b c) (h2 : WalkCost g b x c') : WalkCost g a x (c + c') := by
+  induction h2 with
+  | nil => simpa using h1
+  | snoc _ harc ih => rw [← Int.add_assoc]; exact WalkCost.snoc ih harc
+
+theorem mem_of_lookup {d : List (Nat × Int)} {v : Nat} {y : Int} (h : d.lookup v = some y) :
+    (v, y) ∈ d := by
+  induction d with
+  | nil => simp at h
+  | cons p d ih =>
+    obtain ⟨a, b⟩ := p
+    rw [List.lookup_cons] at h
+    by_cases hva : v = a
+    · subst hva; simp at h; subst h; exact List.mem_cons_self ..
+    · have : (v == a) = false := by simpa using hva
+      rw [this] at h
+      exact List.mem_cons_of_mem _ (ih h)
+
+/-- what `checkDist` establishes -/
+structure Cert (g : MGraph) (s : Nat) (d : List (Nat × Int)) : Prop where
+  src : labelOf d s = some 0
+  relax : ∀ u v w, (u, v, w) ∈ g.arcs → ∀ x, labelOf d u = some x →
+    ∃ y, labelOf d v = some y ∧ y ≤ x + w
+  tight : ∀ v y, labelOf d v = some y → Reach (tightGraph g d) s v
+
+theorem cert_of_check {g : MGraph} {s : Nat} {d : List (Nat × Int)} (h : checkDist g s d = true) :
+    Cert g s d := by
+  unfold checkDist at h
+  simp only [Bool.and_eq_true, List.all_eq_true] at h
+  obtain ⟨⟨⟨h1, _⟩, h3⟩, h4⟩ := h
+  refine ⟨by simpa using h1, ?_, ?_⟩
+  · intro u v w harc x hx
+    have := h3 (u, v, w) harc
+    simp only [hx] at this
+    cases hv : labelOf d v with
+    | none => simp [hv] at this
+    | some y => simp [hv] at this; exact ⟨y, rfl, this⟩
+  · intro v y hv
+    cases hr : reachFrom (tightGraph g d) s with
+    | none => simp [hr] at h4
+    | some r =>
+      simp only [hr, List.all_eq_true] at h4
+      have hmem : (v, y) ∈ d := mem_of_lookup hv
+      have := h4 (v, y) hmem
+      simp at this
+      exact ((reachFrom_spec _ _ _ hr).2 v).1 this
+
+/-- (a) labels are lower bounds and the labelled set is closed under walks -/
+theorem lower {g : MGraph} {s : Nat} {d : List (Nat × Int)} (C : Cert g s d) {v : Nat} {c : Int}
+    (hw : WalkCost g s v c) : ∃ y, labelOf d v = some y ∧ y ≤ c := by
+  induction hw with
+  | nil => exact ⟨0, C.src, Int.le_refl _⟩
+  | snoc _ harc ih =>
+    obtain ⟨x, hx, hxc⟩ := ih
+    obtain ⟨y, hy, hyx⟩ := C.relax _ _ _ harc x hx
+    exact ⟨y, hy, by omega⟩
+
+/-- a step of the tight graph is a tight arc -/
+theorem tight_adj {g : MGraph} {d : List (Nat × Int)} {u v : Nat} (h : Adj (tightGraph g d) u v) :
+    ∃ w x y, (u, v, w) ∈ g.arcs ∧ labelOf d u = some x ∧ labelOf d v = some y ∧ y = x + w := by
+  obtain ⟨e, he, hor⟩ := h
+  have hdir : (tightGraph g d).directed = true := rfl
+  rcases hor with ⟨h1, h2⟩ | ⟨h0, _⟩
+  · simp only [tightGraph, List.mem_filterMap] at he
+    obtain ⟨⟨a, b, w⟩, harc, hm⟩ := he
+    simp only at hm
+    split at hm
+    · rename_i x y hx hy
+      split at hm
+      · rename_i hyx
+        simp at hm
+        subst hm
+        simp at h1 h2
+        subst h1; subst h2
+        exact ⟨w, x, y, harc, hx, hy, hyx⟩
+      · simp at hm
+    · simp at hm
+  · rw [hdir] at h0; cases h0
+
+/-- (b) attainment along tight arcs -/
+theorem attain {g : MGraph} {s : Nat} {d : List (Nat × Int)} (C : Cert g s d) {v : Nat}
+    (hr : Reach (tightGraph g d) s v) : ∃ y, labelOf d v = some y ∧ WalkCost g s v y := by
+  induction hr with
+  | refl => exact ⟨0, C.src, WalkCost.nil _⟩
+  | step _ hadj ih =>
+    obtain ⟨x, hx, hwx⟩ := ih
+    obtain ⟨w, x', y, harc, hx', hy, hyx⟩ := tight_adj hadj
+    rw [hx] at hx'; cases hx'
+    exact ⟨y, hy, hyx ▸ WalkCost.snoc hwx harc⟩
+
 /-- accepted labels are exact shortest-walk costs -/
 theorem checkDist_exact (g : MGraph) (s : Nat) (d : List (Nat × Int)) (h : checkDist g s d = true)
-    (v : Nat) (y : Int) (hv : labelOf d v = some y) : IsShortest g s v y := by sorry
+    (v : Nat) (y : Int) (hv : labelOf d v = some y) : IsShortest g s v y := by
+  have C := cert_of_check h
+  obtain ⟨y', hy', hw⟩ := attain C (C.tight v y hv)
+  rw [hv] at hy'; cases hy'
+  refine ⟨hw, fun c hc => ?_⟩
+  obtain ⟨y', hy', hle⟩ := lower C hc
+  rw [hv] at hy'; cases hy'; exact hle
 
 /-- unlabelled nodes are exactly the nodes no walk reaches -/
 theorem checkDist_unreachable (g : MGraph) (s : Nat) (d : List (Nat × Int)) (h : checkDist g s d = true)
-    (v : Nat) : labelOf d v = none ↔ ¬ ∃ c, WalkCost g s v c := by sorry
+    (v : Nat) : labelOf d v = none ↔ ¬ ∃ c, WalkCost g s v c := by
+  have C := cert_of_check h
+  constructor
+  · rintro hn ⟨c, hc⟩
+    obtain ⟨y, hy, _⟩ := lower C hc
+    rw [hn] at hy; cases hy
+  · intro hn
+    cases hv : labelOf d v with
+    | none => rfl
+    | some y =>
+      exact absurd ⟨y, (checkDist_exact g s d h v y hv).1⟩ hn
 
 /-- an accepted certificate excludes a negative closed walk through any node reachable from `s` -/
 theorem checkDist_no_neg_cycle (g : MGraph) (s : Nat) (d : List (Nat × Int)) (h : checkDist g s d = true)
-    (u : Nat) (c0 c : Int) (hu : WalkCost g s u c0) (hc : WalkCost g u u c) : 0 ≤ c := by sorry
+    (u : Nat) (c0 c : Int) (hu : WalkCost g s u c0) (hc : WalkCost g u u c) : 0 ≤ c := by
+  have C := cert_of_check h
+  obtain ⟨y, hy, _⟩ := lower C hu
+  obtain ⟨hw, hmin⟩ := checkDist_exact g s d h u y hy
+  have := hmin _ (walk_trans hw hc)
+  omega
+
+/-! ### arcs versus `Adj` -/
+
+theorem mem_arcs {g : MGraph} {a b : Nat} {w : Int} :
+    (a, b, w) ∈ g.arcs ↔ ∃ e ∈ g.edges, e.w = w ∧
+      ((e.src = a ∧ e.tgt = b) ∨ (g.directed = false ∧ e.src = b ∧ e.tgt = a)) := by
+  unfold arcs
+  simp only [List.mem_flatMap]
+  constructor
+  · rintro ⟨e, he, hm⟩
+    refine ⟨e, he, ?_⟩
+    split at hm
+    · simp at hm
+      obtain ⟨h1, h2, h3⟩ := hm
+      exact ⟨h3.symm, Or.inl ⟨h1.symm, h2.symm⟩⟩
+    · rename_i hc
+      simp at hc
+      simp at hm
+      rcases hm with ⟨h1, h2, h3⟩ | ⟨h1, h2, h3⟩
+      · exact ⟨h3.symm, Or.inl ⟨h1.symm, h2.symm⟩⟩
+      · exact ⟨h3.symm, Or.inr ⟨hc.1, h2.symm, h1.symm⟩⟩
+  · rintro ⟨e, he, hw, hor⟩
+    refine ⟨e, he, ?_⟩
+    rcases hor with ⟨h1, h2⟩ | ⟨h0, h1, h2⟩
+    · split <;> simp [h1, h2, hw]
+    · by_cases hst : e.src = e.tgt
+      · have hab : a = b := by rw [← h2, ← h1, hst]
+        subst hab
+        simp [hst, h0, h2, hw]
+      · have hba : ¬ b = a := fun hba => hst (by rw [h1, h2, hba])
+        subst h1; subst h2; subst hw
+        simp [hst, h0]
 
 /-- walks and `Reach` agree (ties the weighted notions to the unweighted ones) -/
-theorem walk_iff_reach (g : MGraph) (a b : Nat) : (∃ c, WalkCost g a b c) ↔ Reach g a b := by sorry
+theorem walk_iff_reach (g : MGraph) (a b : Nat) : (∃ c, WalkCost g a b c) ↔ Reach g a b := by
+  constructor
+  · rintro ⟨c, hc⟩
+    induction hc with
+    | nil => exact Reach.refl _
+    | snoc _ harc ih =>
+      obtain ⟨e, he, _, hor⟩ := mem_arcs.mp harc
+      exact Reach.step ih ⟨e, he, hor⟩
+  · intro hr
+    induction hr with
+    | refl => exact ⟨0, WalkCost.nil _⟩
+    | step _ hadj ih =>
+      obtain ⟨c, hc⟩ := ih
+      obtain ⟨e, he, hor⟩ := hadj
+      exact ⟨c + e.w, WalkCost.snoc hc (mem_arcs.mpr ⟨e, he, rfl, hor⟩)⟩
+
+/-! ### the negative-closed-walk checker -/
+
+theorem foldl_min_mem (l : List Int) (acc : Option Int) (w : Int)
+    (h : l.foldl (fun acc w => match acc with | none => some w | some m => some (min m w)) acc = some w) :
+    w ∈ l ∨ acc = some w := by
+  induction l generalizing acc with
+  | nil => exact Or.inr (by simpa using h)
+  | cons x l ih =>
+    rw [List.foldl_cons] at h
+    rcases ih _ h with h' | h'
+    · exact Or.inl (List.mem_cons_of_mem _ h')
+    · cases acc with
+      | none => simp at h'; exact Or.inl (h' ▸ List.mem_cons_self ..)
+      | some m =>
+        simp only [Option.some.injEq] at h'
+        rw [Int.min_def] at h'
+        split at h'
+        · exact Or.inr (by rw [h'])
+        · exact Or.inl (h' ▸ List.mem_cons_self ..)
+
+theorem minArc_mem {g : MGraph} {u v : Nat} {w : Int} (h : minArc g u v = some w) :
+    (u, v, w) ∈ g.arcs := by
+  unfold minArc at h
+  rcases foldl_min_mem _ _ _ h with h' | h'
+  · simp only [List.mem_filterMap] at h'
+    obtain ⟨⟨a, b, w'⟩, harc, hm⟩ := h'
+    simp only at hm
+    split at hm
+    · rename_i hab
+      simp at hm
+      obtain ⟨rfl, rfl⟩ := hab
+      exact hm ▸ harc
+    · cases hm
+  · cases h'
+
+/-- the accumulator step of `checkNegClosedWalk` -/
+abbrev stepF (g : MGraph) : Option Int → Nat × Nat → Option Int :=
+  fun acc (u, v) => match acc, minArc g u v with
+    | some t, some w => some (t + w)
+    | _, _ => none
+
+theorem foldl_stepF_none (g : MGraph) (l : List (Nat × Nat)) : l.foldl (stepF g) none = none := by
+  induction l with
+  | nil => rfl
+  | cons p l ih => obtain ⟨u, v⟩ := p; rw [List.foldl_cons]; exact ih
+
+theorem fold_walk (g : MGraph) (seq : List Nat) : ∀ (a last : Nat) (t0 t : Int),
+    ((a :: seq).zip (seq ++ [last])).foldl (stepF g) (some t0) = some t →
+      WalkCost g a last (t - t0) := by
+  induction seq with
+  | nil =>
+    intro a last t0 t h
+    simp only [List.nil_append, List.zip_cons_cons, List.zip_nil_right, List.foldl_cons,
+      List.foldl_nil, stepF] at h
+    cases hm : minArc g a last with
+    | none => simp [hm] at h
+    | some w =>
+      simp only [hm, Option.some.injEq] at h
+      have hw := WalkCost.snoc (WalkCost.nil a) (minArc_mem hm)
+      have e : t - t0 = 0 + w := by omega
+      rw [e]; exact hw
+  | cons b seq ih =>
+    intro a last t0 t h
+    simp only [List.cons_append, List.zip_cons_cons, List.foldl_cons] at h
+    cases hm : minArc g a b with
+    | none =>
+      have : stepF g (some t0) (a, b) = none := by simp [stepF, hm]
+      rw [this, foldl_stepF_none] at h; cases h
+    | some w =>
+      have : stepF g (some t0) (a, b) = some (t0 + w) := by simp [stepF, hm]
+      rw [this] at h
+      have h1 := ih b last (t0 + w) t h
+      have hw := WalkCost.snoc (WalkCost.nil a) (minArc_mem hm)
+      have h2 := walk_trans hw h1
+      have e : t - t0 = 0 + w + (t - (t0 + w)) := by omega
+      rw [e]; exact h2
 
 /-- an accepted sequence witnesses a closed walk of negative cost through its first node -/
 theorem checkNegClosedWalk_sound (g : MGraph) (seq : List Nat) (h : checkNegClosedWalk g seq = true) :
-    ∃ v c, v ∈ seq ∧ WalkCost g v v c ∧ c < 0 := by sorry
+    ∃ v c, v ∈ seq ∧ WalkCost g v v c ∧ c < 0 := by
+  cases seq with
+  | nil => simp [checkNegClosedWalk] at h
+  | cons v0 rest =>
+    simp only [checkNegClosedWalk, List.drop_succ_cons, List.drop_zero] at h
+    split at h
+    · rename_i t ht
+      have hw := fold_walk g rest v0 v0 0 t ht
+      refine ⟨v0, t, List.mem_cons_self .., by simpa using hw, by simpa using h⟩
+    · cases h
 
 end PetgraphModel.DistProofs
